@@ -84,3 +84,5 @@ func main() {
 		os.Exit(3)
 	}
 }
+
+func removeAll(p string) { os.RemoveAll(p) }
